@@ -298,6 +298,35 @@ def r01_5(ck, F):
                       f"try_push appends {mir.show(e)}", b.loc(bb))
 
 
+def r01_5b(ck, F):
+    ck.rule("R01.5b", "restart on `first` discards the partial message: every path from the entry of the reassembly "
+            "function to DataBuf::try_push passes the installation of a fresh DataBuf or the `first == false` edge",
+            "a multi-chunk send cancelled after some chunks, then another message: the stale chunks are glued in front "
+            "of the next message", floor=1)
+    n = 0
+    for b in F.by_dp.values():
+        if b.crate != "remoc" or not b.file.endswith("chmux/receiver.rs"):
+            continue
+        pushes = [bb for bb, t in b.calls("chmux::receiver::DataBuf::try_push")]
+        if not pushes:
+            continue
+        n += 1
+        fresh = {bb for bb, i, rv in b.aggregates(RECEIVING, "Data")
+                 if (lambda e: e[0] == "call" and e[1].endswith("DataBuf::new"))(b.expr(rv["ops"][0]))}
+        fresh |= {bb for bb, t in b.calls("chmux::receiver::DataBuf::new")}
+        not_first = set()
+        for s in b.reachable:
+            t = b.term(s)
+            if t["t"] == "switch" and mir.last_field(switch_expr(b, s)) == "first":
+                not_first |= {tb for v, tb in t["targets"] if v == "0"}
+        p = b.find_path([0], pushes, avoid=fresh | not_first)
+        ck.expect(p is None, f"{mir.strip_generics(b.path)}#first-discards-partial",
+                  "a frame marked first is always appended to a fresh buffer",
+                  f"try_push at {b.loc(pushes[0])} can append a frame to a buffer kept from an earlier message although "
+                  f"`first` was not tested false", b.loc(pushes[0]))
+    ck.expect(n >= 1, "reassembly#sites", f"{n} reassembly function(s)", "no reassembly function found", None)
+
+
 def r01_6(ck, F):
     ck.rule("R01.6", "stash agreement: when recv_chunk returns Err(Cancelled) after storing the payload of the frame it "
             "just took from the port queue into Receiver.receiving (the start of the NEXT message), every receive entry "
@@ -356,5 +385,5 @@ def r01_6(ck, F):
 
 
 def run(ck, F):
-    for r in (r01_1, r01_2, r01_3, r01_4, r01_5, r01_6):
+    for r in (r01_1, r01_2, r01_3, r01_4, r01_5, r01_5b, r01_6):
         ck.run_rule(r)
